@@ -134,8 +134,13 @@ def hashseed_digests(case):
             "+[o['ranks']], default=lambda x: x.tolist(), sort_keys=True).encode()).hexdigest())")
     out = []
     for hs in ("1", "2", "3"):
-        r = subprocess.run([sys.executable, "-W", "ignore", "-c", code], input=json.dumps(case), capture_output=True, text=True,
-                           env=dict(os.environ, PYTHONHASHSEED=hs), timeout=120)
+        try:
+            r = subprocess.run([sys.executable, "-W", "ignore", "-c", code], input=json.dumps(case), capture_output=True,
+                               text=True, env=dict(os.environ, PYTHONHASHSEED=hs), timeout=120)
+        except subprocess.TimeoutExpired:
+            # a loaded machine, or the known non-termination: no verdict from this session
+            out.append("ERR:timeout")
+            continue
         d = [ln.split()[1] for ln in r.stdout.splitlines() if ln.startswith("DIGEST")]
         out.append(d[0] if d else "ERR:" + r.stderr[-200:])
     return out
